@@ -178,6 +178,27 @@ func runC10(c *Ctx) {
 			opsPredSites[cs.Call.Lparen] = true
 		}
 	}
+	// slices.ContainsFunc(members, <member holds op>) written out in AddClient
+	ast.Inspect(ac.Body(), func(n ast.Node) bool {
+		call, ok := n.(*ast.CallExpr)
+		if !ok {
+			return true
+		}
+		if f := calleeOf(&CallSite{Call: call, In: ac}); f == nil || f.Pkg() == nil || f.Pkg().Path() != "slices" || f.Name() != "ContainsFunc" {
+			return true
+		}
+		if learnt := ff.containsFuncFalse(emptyState, call); learnt != nil {
+			for _, f := range learnt.Facts() {
+				if a, is := isContains(f, "op"); is && !f.Pos && a.K == 'k' && len(a.Args) == 1 && a.Args[0].K == 'o' && a.Args[0].Name == "each" {
+					if !opsPredSites[call.Lparen] {
+						opsPredSites[call.Lparen] = true
+						c.OK("R10.1", "operator-present flag ContainsFunc", call.Pos(), "slices.ContainsFunc(members, m holds \"op\"): true only if an operator is among them")
+					}
+				}
+			}
+		}
+		return true
+	})
 	// op := slices.IndexFunc(members, <member holds op>): op < 0 says no operator is present
 	opsIndexVars := map[types.Object]bool{}
 	ast.Inspect(ac.Body(), func(n ast.Node) bool {
